@@ -205,6 +205,12 @@ def phase_traces(chk, tier, seed, rng, tally):
         if why:
             tally.add("trace:malformed:" + why, "the recorded call has no counterpart in the specification", dict(meta, line=ln), size)
             continue
+        want_draws = -(-cfg["S"] // cp)
+        if sr.oversize(ln) and len(out["calls"]) != want_draws:
+            # far more draws than the schedule has: beyond TLC's integers, and decided by the count alone
+            tally.add("trace:rejected:Draw", "the call made %d draws, the schedule ceil(S / C') has %d"
+                      % (len(out["calls"]), want_draws), dict(meta, draws=len(out["calls"])), size)
+            continue
         lines.append(ln)
         metas.append(meta)
     if len(lines) < ncalls // 2:
